@@ -1,32 +1,10 @@
 /-
-  Obligations that pin the hand-written session model to the facts REGENERATED from the repository's sources on every run
-  (Qfx/Gen/Facts.lean, written by `qfxh extract`).  A source change that alters a fact either still satisfies these
-  (harmless) or breaks the named obligation; `./check Cnn` audits the theorems whose name starts with `Cnn_`.
+  All obligations that pin the hand-written session model to the regenerated facts (Qfx/Gen/Facts.lean).  They live in
+  one module per property (Qfx/Props/Ties/Cnn.lean) — `./check Cnn` builds and audits only its own; this umbrella is for
+  `lake build` of the whole library.
 -/
-import Qfx.Gen.Facts
-import Qfx.Model.Session
-open Qfx Qfx.Sess
-
-/-- msg_type.go isAdminMessageType is exactly the model's `isAdminKind` (which decides FromAdmin vs FromApp, gap fill vs replay) -/
-theorem C01_gen_admin_kinds (k : String) : isAdminKind k = Qfx.Gen.adminMsgTypes.contains k := by
-  simp only [isAdminKind, Qfx.Gen.adminMsgTypes, List.contains, List.elem_cons, List.elem_nil]
-  cases (k == "0") <;> cases (k == "1") <;> cases (k == "2") <;> cases (k == "3") <;>
-    cases (k == "4") <;> cases (k == "5") <;> cases (k == "A") <;> rfl
-theorem C03_gen_admin_kinds (k : String) : isAdminKind k = Qfx.Gen.adminMsgTypes.contains k := C01_gen_admin_kinds k
-theorem C08_gen_admin_kinds (k : String) : isAdminKind k = Qfx.Gen.adminMsgTypes.contains k := C01_gen_admin_kinds k
-
-/-- session.go verifySelect runs its checks in the order the model's `verifySelect` does -/
-theorem C06_gen_verify_order :
-    Qfx.Gen.verifyOrder = ["checkBeginString", "checkCompID", "currentResendState", "checkSendingTime",
-                           "checkTargetTooLow", "checkTargetTooHigh", "verifyMsgAgainstAppImpl"] := by decide
-
-/-- errors.go: the reject reasons the model's reactions use -/
-theorem C06_gen_reject_reasons :
-    Qfx.Gen.rejectReasons.lookup "CompIDProblem" = some 9 ∧ Qfx.Gen.rejectReasons.lookup "SendingTimeAccuracyProblem" = some 10
-    ∧ Qfx.Gen.rejectReasons.lookup "RequiredTagMissing" = some 1 ∧ Qfx.Gen.rejectReasons.lookup "TagSpecifiedWithoutAValue" = some 4
-    ∧ Qfx.Gen.rejectReasons.lookup "IncorrectDataFormatForValue" = some 6 ∧ Qfx.Gen.rejectReasons.lookup "ValueIsIncorrect" = some 5
-    ∧ Qfx.Gen.rejectReasons.lookup "ConditionallyRequiredFieldMissing" = some 8 ∧ Qfx.Gen.rejectReasons.lookup "InvalidMsgType" = some 11 := by
-  decide
-
-/-- every place that arms the peer timer multiplies HeartBtInt by the literal 1.2 (the model arms 1200 ms per second of HeartBtInt) -/
-theorem C20_gen_peer_factor : Qfx.Gen.peerTimerFactors.all (· == "1.2") = true ∧ Qfx.Gen.peerTimerFactors.length = 3 := by decide
+import Qfx.Props.Ties.C01
+import Qfx.Props.Ties.C03
+import Qfx.Props.Ties.C06
+import Qfx.Props.Ties.C08
+import Qfx.Props.Ties.C20
